@@ -18,6 +18,8 @@ pub struct GenOpts {
     pub overrides: bool,
     /// at most this many legacy reply handlers per program (2 = also the "first declared wins" shape)
     pub max_legacy_reply: usize,
+    /// reply family: rename one typed payload parameter to the k-th local-name candidate
+    pub force_local: Option<usize>,
     /// forward `serde(alias = ..)` through `sv::attr` (C17 only: aliases are invisible to the routing lists)
     pub aliases: bool,
 }
@@ -33,6 +35,7 @@ impl Default for GenOpts {
             replies: false,
             legacy_reply: true,
             max_legacy_reply: 2,
+            force_local: None,
             overrides: true,
             aliases: false,
         }
@@ -429,6 +432,9 @@ pub fn gen_msg_program(id: &str, tape: Vec<u32>, opts: &GenOpts) -> Program {
 // ---------------------------------------------------------------------------------------
 // Family `fam_reply`: contracts with `#[sv::features(replies)]` and a reply-handler table.
 
+/// Identifiers used as locals inside the generated sub-message builders / reply dispatcher.
+pub const LOCALS: &[&str] = &["gas_limit", "env", "deps", "id", "msg", "reply_on", "gas_used", "events", "msg_responses", "contract", "info", "sub_msg_resp", "self_"];
+
 fn gen_payload(t: &mut Tape, nparams: usize, opts: &GenOpts, mk: &mut Markers) -> Payload {
     if t.chance(30) {
         return Payload::Raw;
@@ -440,7 +446,6 @@ fn gen_payload(t: &mut Tape, nparams: usize, opts: &GenOpts, mk: &mut Markers) -
         // parameters; names of locals of the generated builder / dispatcher are deliberately
         // frequent (they must not be shadowed)
         let used: Vec<String> = args.iter().map(|a| a.name.clone()).chain(["data", "error", "result", "payload"].iter().map(|s| s.to_string())).collect();
-        const LOCALS: &[&str] = &["gas_limit", "env", "deps", "id", "msg", "reply_on", "gas_used", "events", "msg_responses", "contract", "info"];
         if t.chance(25) {
             let cand = LOCALS[t.pick(LOCALS.len())].to_string();
             if !used.contains(&cand) {
@@ -580,6 +585,25 @@ pub fn gen_reply_program(id: &str, tape: Vec<u32>, opts: &GenOpts, any_order: bo
         let spec = m.reply.as_mut().unwrap();
         if spec.handlers.is_empty() {
             // keep implicit
+        }
+    }
+    // systematic coverage of the local-name list: program number k renames the first typed
+    // payload parameter (in every method of that handler group) to LOCALS[k % len]
+    if let Some(k) = opts.force_local {
+        let local = LOCALS[k % LOCALS.len()].to_string();
+        let target = reply_methods.iter().find_map(|m| match &m.reply.as_ref().unwrap().payload {
+            Payload::Typed(a) if !a.iter().any(|x| x.name == local) => Some(a.clone()),
+            _ => None,
+        });
+        if let Some(target) = target {
+            for m in reply_methods.iter_mut() {
+                let spec = m.reply.as_mut().unwrap();
+                if spec.payload == Payload::Typed(target.clone()) {
+                    if let Payload::Typed(a) = &mut spec.payload {
+                        a[0].name = local.clone();
+                    }
+                }
+            }
         }
     }
     // insert the non-reply methods at random positions, keeping the reply methods' order
